@@ -584,7 +584,7 @@ func genCase(t *rapid.T, mode string) m19.Case {
 	}
 	nonError := rk.Kind == "throw-prim" || rk.Kind == "throw-object"
 	for i := 0; i < n; i++ {
-		l := m19.Link{Kind: rapid.SampledFrom(pool).Draw(t, "kind"), Var: rapid.IntRange(0, 11).Draw(t, "lvar"),
+		l := m19.Link{Kind: rapid.SampledFrom(pool).Draw(t, "kind"), Var: rapid.IntRange(0, 89).Draw(t, "lvar"),
 			Wrap:  rapid.SampledFrom(m19.Wraps).Draw(t, "wrap"),
 			Stmt:  rapid.SampledFrom(m19.StmtForms).Draw(t, "stmt"),
 			Noise: genNoise(t, "noise")}
@@ -615,7 +615,7 @@ func genCase(t *rapid.T, mode string) m19.Case {
 	return c
 }
 
-const ruleCommon = "rapid: call chain of 0-12 links drawn from 21 link kinds (declaration, named/anonymous function expression, method, constructor, seven array callbacks, getter, setter, direct and indirect eval, bound function, call/apply, Go host function, non-reference callee) with recursion, try/finally/rethrow wrappers, nine statement forms and noise statements (including a direct eval that returns and one whose code throws and is caught in the same frame); one raising construct in the innermost frame; layout (indentation, blank lines, comments, token-level line splitting, definition order) from a byte tape; the renderer reports the position of every call site; trace limit 1-12 or 50; file name via Compile/ParseFile or anonymous. Each case runs a catching sibling program (class, prototype chain, name, message) and the uncaught program (error text = 'Name: message' seen by the script; trace lines = active frames innermost first, truncated at the limit). non-trivial = >= 3 links of >= 2 kinds and the construct not at 1:1; distinct by the JSON of the case. "
+const ruleCommon = "rapid: call chain of 0-12 links drawn from 21 link kinds (declaration, named/anonymous function expression, method, constructor, seven array callbacks, getter and setter (own or inherited through constructor.prototype, an Object.create chain or defineProperty on a prototype; reached through ., [] or a with scope), direct and indirect eval, bound function, call/apply, Go host function, non-reference callee) with recursion, try/finally/rethrow wrappers, nine statement forms and noise statements (including a direct eval that returns and one whose code throws and is caught in the same frame); one raising construct in the innermost frame; layout (indentation, blank lines, comments, token-level line splitting, definition order) from a byte tape; the renderer reports the position of every call site; trace limit 1-12 or 50; file name via Compile/ParseFile or anonymous. Each case runs a catching sibling program (class, prototype chain, name, message) and the uncaught program (error text = 'Name: message' seen by the script; trace lines = active frames innermost first, truncated at the limit). non-trivial = >= 3 links of >= 2 kinds and the construct not at 1:1; distinct by the JSON of the case. "
 
 var traceFacet = harness.Register(&harness.Facet[m19.Case]{
 	Name:  "trace",
@@ -688,6 +688,37 @@ func TestSyntaxAll(t *testing.T) {
 	}
 	harness.SetExhaustive(syntaxAllFacet.Name)
 	syntaxAllFacet.Each(t, cases)
+}
+
+// accessorAllFacet enumerates where an accessor can live and how it can be reached.
+var accessorAllFacet = harness.Register(&harness.Facet[m19.Case]{
+	Name: "accessor-all",
+	Rule: "complete enumeration: getter / setter x place (own object literal, literal assigned to constructor.prototype, Object.create chain of depth 1, 2, 3, defineProperty on constructor.prototype, defineProperty on the object) x access (o.g, o[\"g\"], identifier inside with (o)) x reading frame with / without an earlier recorded site (a `new Object()` and a call on other lines) x two raising constructs; chain declaration > accessor > declaration, limit 50. The reading frame's trace line must lie inside the member expression (for `with`: the identifier). non-trivial = all.",
+	Check: func(c m19.Case) harness.Outcome {
+		o := checkCase(c)
+		o.Nontrivial = o.Fail == "" && o.Discard == ""
+		return o
+	},
+})
+
+func TestAccessorAll(t *testing.T) {
+	var cases []m19.Case
+	for _, kind := range []string{"getter", "setter"} {
+		for v := 0; v < 45; v++ {
+			if v%5 != 2 && v >= 15 {
+				continue // the depth only matters for Object.create chains
+			}
+			for _, noise := range [][]string{nil, {"newobj", "noop"}} {
+				for rv, rk := range []string{"unresolvable", "throw-native"} {
+					cases = append(cases, m19.Case{
+						Links: []m19.Link{{Kind: "decl", Stmt: "var"}, {Kind: kind, Var: v, Noise: noise, Stmt: "expr"}, {Kind: "decl", Stmt: "return"}},
+						Raise: m19.Raise{Kind: rk, Var: rv * 3, Stmt: "expr"}, Tape: []byte{byte(v), 0, 11, 0, 7}, Limit: 50, File: "acc.js", Route: "compile"})
+				}
+			}
+		}
+	}
+	harness.SetExhaustive(accessorAllFacet.Name)
+	accessorAllFacet.Each(t, cases)
 }
 
 func TestTrace(t *testing.T)   { traceFacet.Run(t) }
